@@ -60,7 +60,7 @@ def jobs(tier):
             if method != "fifo":
                 for filt in ("none",) if tier == "quick" else ("none", "from", "to", "from-to"):
                     js.append({"for": "C16", "country": country, "lang": LANGS[country][0], "method": method, "filter": filt, "shape": "BS+B"})
-                if country == "us" or tier == "thorough":
+                if (country == "us" and method == "hifo") or tier == "thorough":
                     js.append({"for": "C16", "country": country, "lang": LANGS[country][0], "method": method, "filter": "none", "shape": "BIS+I"})
     return js
 
